@@ -79,6 +79,9 @@ def main():
     meta["check"] = {"cmd": "VERIF_REPO=%s ./check %s --tier %s" % (wt, pid, tier), "exit": r.returncode, "summary": lines[0] if lines else "", "violations": len(viol),
                      "signatures": sigs[:12], "first_message": next((l.strip()[:500] for l in lines if l.strip().startswith("sig=")), ""), "wall_s": round(time.time() - t0, 1)}
     meta["caught"] = r.returncode == 1 and len(viol) > 0
+    broken = [l[len("ASSUMPTION-BROKEN: "):][:300] for l in lines if l.startswith("ASSUMPTION-BROKEN")]
+    if broken:
+        meta["check"]["assumption_broken"] = broken[:3]  # sampled ThreadSanitizer twin: flags, never a verdict
     if viol:
         rp = viol[0].split("replay=")[1].strip()
         rr = subprocess.run([os.path.join(ROOT, "check"), "replay", rp], stdout=subprocess.PIPE, stderr=subprocess.STDOUT, text=True, errors="replace", env=env, cwd=ROOT)
@@ -91,7 +94,7 @@ def main():
     alt = os.path.join(ROOT, "build", "alt-" + hashlib.sha1(os.path.realpath(wt).encode()).hexdigest()[:10])
     shutil.rmtree(alt, ignore_errors=True)
     json.dump(meta, open(os.path.join(out, "meta.json"), "w"), indent=1)
-    print("%s-%s tests_pass=%s demo_discriminates=%s caught=%s replay=%s :: %s" % (pid, k, meta.get("tests_pass_with_change"), meta.get("demo_discriminates"), meta["caught"], meta["check"].get("replay"), "; ".join(sigs[:3])))
+    print("%s-%s tests_pass=%s demo_discriminates=%s caught=%s replay=%s :: %s" % (pid, k, meta.get("tests_pass_with_change"), meta.get("demo_discriminates"), meta["caught"], meta["check"].get("replay"), "; ".join(sigs[:3]) + (" [flagged: " + meta["check"]["assumption_broken"][0][:120] + "]" if meta["check"].get("assumption_broken") else "")))
     return 0
 
 
